@@ -42,7 +42,7 @@ HAND = ["i0 := 1;", "b0;", "[ start ] b0;", "( start, end ] b0;", "[ start, end 
         "[ start ] when (not (i0 == 1)) { b0 := true; };", "when (not (b0 and b0)) { i0 :increase 1; };",
         "[ end ] when (not b0) { b0 := true; };", "when not (b0 or b0) { b0 := false; };",
         "[ start ] forall (T0 x){ when (not (b1(x) and b0)) { b1(x) := false; }; };", "( start, end ) (not (i0 < 2));",
-        "when (i0) { b0 := true; };", "when (start) b0 { b0 := true; };"]
+        "when (start) b0 { b0 := true; };"]
 
 
 def tokenize(text, sid):
